@@ -2,6 +2,7 @@
    Restates Proofs/DriverWf.wf_run on the driver model, for every user, every kernel behaviour,
    every configuration (checkpoint, scaler, update function, callable tolerances included). *)
 From Coq Require Import List ZArith Bool String Floats.PrimFloat.
+From LBFGSB Require Generated.GetBounds Model.NumpyOps.
 From LBFGSB Require Import Base.Res Model.SF Model.FloatVec Model.Driver Proofs.DriverWf Generated.Handlers.
 Import ListNotations.
 Open Scope Z_scope.
@@ -61,6 +62,26 @@ Theorem C20_no_handler_around_user_code :
   except_sites_reaching_user_code = [] /\ suppressing_with_sites = [] /\ global_state_mutator_calls = [] /\ shared_write_sites = [].
 Proof. repeat split; reflexivity. Qed.
 
+(* TRANSLATION TIE: the only exceptions of the package's own that a run can end with (C20_propagation: a checkpoint mismatch or
+   `bounds_error`) - the validation of x0 against the bounds in base.get_bounds - which ValueError, in which order, with which
+   message, the f-string of the last one translated piece by piece (Generated/GetBounds.v, regenerated on every run), is the
+   model's bounds_error. *)
+Lemma any_count : forall (p : float -> float -> bool) (a b : vec), existsb (fun t => t) (NumpyOps.bmap2 p a b) = (0 <? count2 p a b)%nat.
+Proof. induction a as [|x a IH]; intros [|y b]; cbn [NumpyOps.bmap2 existsb count2]; auto. destruct (p x y); cbn [orb Nat.add]; [reflexivity|apply IH]. Qed.
+Lemma filter_count : forall (p : float -> float -> bool) (a b : vec), List.length (List.filter (fun t => t) (NumpyOps.bmap2 p a b)) = count2 p a b.
+Proof. induction a as [|x a IH]; intros [|y b]; cbn [NumpyOps.bmap2 filter count2 List.length]; auto. destruct (p x y); cbn [List.length Nat.add]; [f_equal|]; apply IH. Qed.
+
+Theorem C20_get_bounds_from_source : forall c : cfg,
+  GetBounds.get_bounds_error (x0 c) (lb c) (ub c) = bounds_error c.
+Proof.
+  intros c. unfold GetBounds.get_bounds_error, bounds_error. destruct (x0 c) as [|a x]; [reflexivity|].
+  rewrite !any_count, !filter_count. destruct (0 <? count2 ltb (ub c) (lb c))%nat; [reflexivity|].
+  assert (E : ((0 <? count2 ltb (a :: x) (lb c))%nat || (0 <? count2 ltb (ub c) (a :: x))%nat) = (0 <? count2 ltb (a :: x) (lb c) + count2 ltb (ub c) (a :: x))%nat).
+  { destruct (count2 ltb (a :: x) (lb c)); destruct (count2 ltb (ub c) (a :: x)); reflexivity. }
+  rewrite E. destruct (0 <? _ + _)%nat; reflexivity.
+Qed.
+
+Print Assumptions C20_get_bounds_from_source.
 Print Assumptions C20_propagation.
 Print Assumptions C20_only_user_exceptions.
 Print Assumptions C20_nothing_swallowed.
